@@ -37,17 +37,10 @@ const POINTS: [&str; 16] = [
     "gc.before_delete", "gc.delete_one", "close.lock_released",
 ];
 
-/// Orphan workers of failed `DB::open` calls die on a closed channel; that is not an open database.
-fn is_orphan_worker_panic(message: &str) -> bool {
-    message.contains("RecvError")
-}
-
+/// Any panic on one of raindb's threads counts. (Until the repair D31 the worker of a *failed*
+/// `DB::open` died with a panic on its closed channel, and that one was exempted here.)
 pub fn judge_bg_panics(out: &mut CaseOut, prop: &str) {
     for p in watch::bg_panics() {
-        if is_orphan_worker_panic(&p.message) {
-            out.add("orphan_worker_panics", 1);
-            continue;
-        }
         out.violate(
             format!("{prop}/bg-thread-panic/{}", watch::short_location(&p.location)),
             json!({"thread": p.thread, "message": p.message, "location": p.location}),
